@@ -50,6 +50,7 @@ type ReqRec struct {
 	ConnID   int
 	ID       uint64
 	Token    string
+	Proto    string // protocol the client spoke
 	Method   string // HTTP
 	Target   string // HTTP request-target as sent
 	Queued   bool   // waiting for its turn on a ping-pong client connection
